@@ -103,12 +103,12 @@ CHECKS = {
    note="Trusted: checks/refsem.py. [decoder]. Outside: repair/mutate of invalid inputs (they call the solver loop and hit a TypeError of the installed `returns` library on the unchanged tree).",
    design="§3 C18"),
  "C13": dict(level="other", technique="CrossHair (z3): solver-driven exhaustive enumeration of bounded host trees; real insert_tree for every portfolio tree and every combination of insertion methods",
-   text=BOUNDED + "Every host tree decodable from <= 4/6 choices over 2 grammars (assignment language, XML-like self embedding) x 3 insertable trees per nonterminal x all 7 method combinations: each result is a valid tree with the host's root, "
+   text=BOUNDED + "Every host tree decodable from <= 4/6 choices over 6 grammars (assignment language, XML-like self embedding, left recursion, alternatives of different length, nonterminal-like terminals, unreachable recursion) x 3 insertable trees per nonterminal x all 7 method combinations: each result is a valid tree with the host's root, "
         "contains every original node exactly once with its label, contains the inserted tree (its open leaves may be filled), and is internally consistent.",
    note="Trusted: validator / traversal in the harness. [decoder]. Outside: larger trees, insert_trees.",
    design="§3 C13"),
  "C01": dict(level="other", technique="CrossHair (z3): solver-driven exhaustive enumeration of a bounded configuration space (constraint x solver settings x seed); the real ISLaSolver run per configuration, solutions judged by the reference semantics",
-   text=BOUNDED + "The solve loop is a heap algorithm around Z3 calls and cannot be encoded; what is decided is: for EVERY configuration of a bounded space (16 constraints x free/SMT instantiation limits x optimized queries x unique trees x "
+   text=BOUNDED + "The solve loop is a heap algorithm around Z3 calls and cannot be encoded; what is decided is: for EVERY configuration of a bounded space (23 constraints incl. requested start symbols and a second grammar x free/SMT instantiation limits x optimized queries x unique trees x "
         "insertion methods x unsat support x seed) every solution of the first 3/8 solve() calls is closed, a derivation tree of the grammar, re-parses and satisfies the constraint under the reference semantics.",
    note="Trusted: checks/refsem.py, validator. [decoder]. Configurations whose first call exceeds a wall-clock guard are abandoned and listed. Outside: other grammars/constraints/settings, longer solution sequences.",
    design="§3 C01"),
@@ -117,9 +117,14 @@ CHECKS = {
         "the clock is a stub advancing by 0/0.6/7 s per reading according to every increment vector of length <= 2, so the timeout strikes at every reachable point.",
    note="Trusted: clock stub. [decoder]. Known findings: RuntimeError for a negative numeric model value (optimized queries), AssertionError for numeric quantifiers without optimized queries.",
    design="§3 C02"),
+ "C21": dict(level="other", technique="CrossHair (z3): solver-driven exhaustive enumeration of bounded derivation trees of the shipped grammars (mixed-radix tree codes) and of solver configurations; the real evaluator / shipped predicates / ISLaSolver vs. independent validators",
+   text=BOUNDED + "Decomposed: (adequacy) for every derivation tree of the shipped CSV / XML / reST grammar whose choice code is below 2048/65536 (left-to-right and right-to-left, identifiers and texts from macro sets) and every simple-TAR header "
+        "over 3 names x paddings 99/100/101 x type flag x link names x 4 checksum variants: if the shipped constraint evaluates to TRUE, an independent validator (csv module, expat, docutils, hand-written tar field/checksum check) accepts the string; "
+        "(solve) for every configuration of 2/6 seeds x 5 cost settings x instantiation limits, the first 6/20 solutions of the real ISLaSolver on the shipped grammar+constraint are accepted. With C01 and C03 the adequacy part gives C21 for all seeds and cost settings within the tree bound.",
+   note="Trusted: the four independent validators. [decoder]. Known findings: the XML constraints allow binding the reserved prefix xml; reST body text that docutils reads as markup ('::', underline-like lines, list/markup starts). Outside: full TAR, Scriptsize-C, csvlint, larger trees.",
+   design="§10 C21"),
 }
 NOT_APPLICABLE = {
- "C21": "needs end-to-end solve() on the shipped formalizations plus external validators (docutils, XML parser): the solver loop is a heap algorithm around Z3 calls that no engine here can encode, and the validators are not solver objects",
  "C22": "a statement about pairs of OS processes, hash randomisation, identity-based hashing and Z3's internal state; not expressible as a bounded assertion over symbolic inputs of a function",
 }
 PENDING = "check not built yet in this revision (planned in DESIGN.md §3)"
